@@ -30,5 +30,8 @@ func mod(root map[string]any, at any, args ...any) any {
 	if n1, ok = asInt(v); !ok {
 		panic(fmt.Errorf("mod expected only integer arguments, not a %T", v))
 	}
+	if n1 == 0 {
+		panic(fmt.Errorf("mod can not divide by zero"))
+	}
 	return n0 % n1
 }
